@@ -74,6 +74,7 @@ type Scenario struct {
 	Storm      *Storm   `json:"storm,omitempty"`
 	Flood      *Flood   `json:"flood,omitempty"`
 	Overlap    *Overlap `json:"overlap,omitempty"`
+	RegRace    *RegRace `json:"regrace,omitempty"`
 	Readers    int      `json:"readers,omitempty"`            // readers of the SDK MeterProvider that gets installed (default 1)
 	Concurrent bool     `json:"concurrent_collect,omitempty"` // final collections of all readers released together, 3 rounds
 	SlowRegUs  int      `json:"slow_register_us,omitempty"`   // the SDK's RegisterCallback is this slow (widens the hand-over)
@@ -99,6 +100,9 @@ func childMain() {
 	wd := 60
 	if sc.Storm != nil && sc.Storm.WatchdogS > 0 {
 		wd = sc.Storm.WatchdogS
+	}
+	if sc.RegRace != nil && sc.RegRace.WatchdogS > 0 {
+		wd = sc.RegRace.WatchdogS
 	}
 	if sc.Overlap != nil && sc.Overlap.WatchdogS > 0 {
 		wd = sc.Overlap.WatchdogS
@@ -131,6 +135,9 @@ func childMain() {
 			runSeq(w, sc.Steps, res)
 		case "storm":
 			runStorm(w, sc.Storm, res)
+		case "regrace":
+			runRegRace(w, sc.RegRace, res)
+			return // builds its history itself (nothing is logged while it runs)
 		case "overlap":
 			runOverlap(w, sc.Overlap, res)
 		case "flood":
